@@ -114,18 +114,45 @@ func loadEngine(repo string, patterns []string, overlay map[string][]byte, stdSp
 	}
 	for _, p := range pkgs {
 		e.pkgByName[p.Types.Name()] = p.Types
+		e.pkgByName[pkgKey(p.Types)] = p.Types
 	}
 	for _, p := range pkgs {
 		addPkg(p.Types, 2)
-		for _, f := range p.CompiledGoFiles {
-			if filepath.Base(f) == "contracts_verif.go" {
-				b, err := readFileOrOverlay(f, overlay)
-				if err != nil {
-					return nil, err
+	}
+	// contract files of every package of the repository (callee contracts are needed across packages)
+	var cfiles []string
+	filepath.WalkDir(repo, func(path string, d os.DirEntry, err error) error {
+		if err != nil {
+			return nil
+		}
+		if d.IsDir() && (d.Name() == ".git" || d.Name() == "node_modules") {
+			return filepath.SkipDir
+		}
+		if !d.IsDir() && d.Name() == "contracts_verif.go" {
+			cfiles = append(cfiles, path)
+		}
+		return nil
+	})
+	for f := range overlay {
+		if filepath.Base(f) == "contracts_verif.go" {
+			dup := false
+			for _, c := range cfiles {
+				if c == f {
+					dup = true
 				}
-				e.cons.parseContractFile(f, b, p.Types.Name())
+			}
+			if !dup {
+				cfiles = append(cfiles, f)
 			}
 		}
+	}
+	sort.Strings(cfiles)
+	for _, f := range cfiles {
+		b, err := readFileOrOverlay(f, overlay)
+		if err != nil {
+			return nil, err
+		}
+		e.cons.parseContractFile(f, b, filepath.Base(filepath.Dir(f)))
 	}
 	for fn := range ssautil.AllFunctions(prog) {
 		if fn.Synthetic != "" && fn.Blocks == nil {
@@ -663,4 +690,14 @@ func (e *Engine) verifyFunc(key string, sem chan struct{}) *FuncResult {
 	fr.Results = results
 	fr.Seconds = time.Since(start).Seconds()
 	return fr
+}
+
+// pkgKey: the name under which a package's functions, contracts and spec functions are keyed:
+// the last element of its import path (so that package main of cmd/glyph is "glyph").
+func pkgKey(p *types.Package) string {
+	path := p.Path()
+	if i := strings.LastIndex(path, "/"); i >= 0 {
+		path = path[i+1:]
+	}
+	return path
 }
